@@ -182,6 +182,9 @@ pub struct RefRun {
     pub wrapped: bool,
     pub probes: [u32; N_PROBES],
     /// the logged draws did not line up with the reference's `random` evaluations
+    /// first step that belongs to a row whose entries made two or more draws: which entry
+    /// got which value depends on the (unspecified) order in which entries are evaluated
+    pub multi_draw_step: Option<usize>,
     pub draw_mismatch: Option<String>,
     /// number of logged draw events the reference consumed, and how many there were
     pub draws_used: usize,
@@ -236,6 +239,7 @@ struct Interp<'a> {
     probes: [u32; N_PROBES],
     wrapped: bool,
     draw_pos: usize,
+    multi_draw_step: Option<usize>,
     draw_mismatch: Option<String>,
     src_rows: usize,
     loop_depth: usize,
@@ -429,6 +433,15 @@ impl<'a> Interp<'a> {
                         "`{name}` is lexically an output read but a variable of that name \
                          exists at run time"
                     ))),
+                    (None, true) if matches!(self.outputs.get(name), Some(OutVal::Num(_))) => {
+                        // a `let` of this name precedes the use in the text but was never
+                        // executed: no variable is in scope, the name denotes the device's
+                        // output (C04: the value of the latest output-reading call)
+                        match self.outputs.get(name) {
+                            Some(OutVal::Num(v)) => Ok(*v),
+                            _ => unreachable!(),
+                        }
+                    }
                     (None, true) => {
                         if self.sig_names.iter().any(|s| s == name) {
                             Err(Stop::Unspecified(format!(
@@ -614,6 +627,8 @@ impl<'a> Interp<'a> {
         // 1. evaluate entries left to right
         let mut ev: Vec<Ev> = vec![];
         let mut reads_output = false;
+        let draws_before = self.draw_pos;
+        let first_step = self.steps.len();
         for en in entries {
             match en {
                 Entry::Num(n) => ev.push(Ev::Num(*n)),
@@ -640,6 +655,9 @@ impl<'a> Interp<'a> {
                     }
                 }
             }
+        }
+        if self.draw_pos >= draws_before + 6 && self.multi_draw_step.is_none() {
+            self.multi_draw_step = Some(first_step);
         }
         if reads_output {
             self.probe(Probe::ReadInRow);
@@ -1119,6 +1137,7 @@ pub fn run_reference(inp: &RefInput<'_>) -> RefRun {
         probes: [0; N_PROBES],
         wrapped: false,
         draw_pos: 0,
+        multi_draw_step: None,
         draw_mismatch: None,
         src_rows: 0,
         loop_depth: 0,
@@ -1144,6 +1163,7 @@ pub fn run_reference(inp: &RefInput<'_>) -> RefRun {
         unspecified: None,
         wrapped: false,
         probes: [0; N_PROBES],
+        multi_draw_step: None,
         draw_mismatch: None,
         draws_used: 0,
         draws_total: inp.draws.len(),
@@ -1208,6 +1228,7 @@ pub fn run_reference(inp: &RefInput<'_>) -> RefRun {
     run.wrapped = it.wrapped;
     run.probes = it.probes;
     run.draw_mismatch = it.draw_mismatch;
+    run.multi_draw_step = it.multi_draw_step;
     run.draws_used = it.draw_pos;
     run
 }
